@@ -290,6 +290,23 @@ def run_shard(cfg):
     logging.getLogger("mpgameserver").setLevel(100)
     r = rng("C14", cfg["seed"], cfg["shard"])
     c = Counter()
+    if cfg["shard"] % 2 == 1:
+        # a deployment with logging configured the way the library's own setupLogger() does it (level INFO, a handler that formats
+        # every record): whatever the decoder logs about hostile input is part of what decoding that input costs
+        class FormatSink(logging.Handler):
+            def emit(self, record):
+                c.inc("log_records_formatted")
+                try:
+                    self.format(record)
+                except Exception:
+                    c.inc("log_records_failed_to_format")
+        lg_ = logging.getLogger("mpgameserver")
+        lg_.setLevel(logging.INFO)
+        lg_.propagate = False
+        sink_ = FormatSink()
+        sink_.setFormatter(logging.Formatter('%(asctime)-15s %(levelname)s %(pathname)s:%(funcName)s:%(lineno)d: %(message)s'))
+        lg_.addHandler(sink_)
+        c.inc("shards_with_logging_configured")
     violations, samples, distinct = [], [], set()
 
     def viol(mech, msg, case):
@@ -488,6 +505,36 @@ def run_shard(cfg):
                 judge(label, b, via="loadz")
                 judge(label, b, via="buffered-file")
                 c.inc("via_other_stream_kinds")
+        # enums with values that are no member's - and look like format strings, paths, numbers (what gets logged or looked up about them)
+        for tid, cls_ in sorted(S.SerializableType.registry.items()):
+            if isinstance(cls_, type) and issubclass(cls_, S.SerializableEnum):
+                for val in ("%120000000s", b"%120000000s", "%(x)s %99999999d", "%s%s%s%s", "{0:>99999999}", 2 ** 40, -1, 1e30, "", "x" * 300):
+                    st_e = BytesIO()
+                    S.serialize_value(st_e, val)
+                    judge("enum-illegal-value", struct.pack(">H", tid) + st_e.getvalue())
+                    if len(attacks) < 400:
+                        attacks.append(("enum-illegal-value", struct.pack(">H", tid) + st_e.getvalue()))
+        # well-formed handshake messages (valid key, correct padding) whose integer fields hold extreme values: what the handler
+        # does with a number an unauthenticated peer chose costs what the datagram costs, not what the number says
+        try:
+            import mpgameserver.connection as C_
+            from mpgameserver import EllipticCurvePrivateKey as K_
+            for val in (2 ** 30, 2 ** 31 - 1, 2 ** 26 + 5, 2 ** 40, 2 ** 63 - 1, -2 ** 63, -1, 0, 255, 65536, 10 ** 9):
+                m_ = C_.HandshakeClientHelloMessage()
+                m_.client_pubkey = K_.new().getPublicKey()
+                m_.client_version = val
+                judge("extreme-field:client-hello-version", m_.dumpb(), via="client-hello-handler")
+                ch_ = C_.HandshakeClientChallengeResponseMessage()
+                ch_.token = val
+                judge("extreme-field:challenge-token", ch_.dumpb(), via="challenge-handler")
+                sh_ = C_.HandshakeServerHelloMessage()
+                sh_.server_pubkey = K_.new().getPublicKey()
+                sh_.salt = r.randbytes(16)
+                sh_.token = val
+                judge("extreme-field:server-hello-token", sh_.dumpb(server_root_key=root), via="server-hello-handler")
+                c.inc("inputs_extreme_handshake_fields", 3)
+        except (ValueError, OverflowError, struct.error):
+            c.inc("extreme_handshake_fields_not_encodable")
         # the real handshake decoders and Request.message on mutated handshake messages
         hs = {k: b for k, b in valid if k != "value"}
         n = cfg["n"]
